@@ -138,6 +138,14 @@ func init() {
 	}
 }
 
+type dPubSS struct {
+	PP [][]*dLeaf                 `class:"public"`
+	PV [][]dLeaf                  `class:"public"`
+	PM [][]map[string]interface{} `class:"public"`
+	SS [][]string                 `class:"public"`
+	N  int
+}
+
 // a Taggable struct whose tag list is empty, and a struct that holds one before a Taggable map holder
 type dNoTags struct {
 	Name   string `class:"public"`
@@ -388,6 +396,7 @@ func deepShapes(p *prng, n int, st *stats, oracle func(string, ...any)) {
 	f := &encrypt.Filter{Wrapper: testWrapper(1), HmacSalt: []byte("s"), HmacInfo: []byte("i")}
 	reported := map[string]bool{}
 	var reuseE *eventlogger.Event
+	var typeBefore reflect.Type
 	for i := 0; i < n; i++ {
 		st.Cases++
 		st.Ops++
@@ -396,7 +405,7 @@ func deepShapes(p *prng, n int, st *stats, oracle func(string, ...any)) {
 		kind := ""
 		curTags = nil
 		f.IgnoreTypes = nil
-		switch p.intn(30) {
+		switch p.intn(33) {
 		case 0:
 			l := mkLeaf(c, p)
 			payload, kind = &l, "ptr-struct"
@@ -495,6 +504,21 @@ func deepShapes(p *prng, n int, st *stats, oracle func(string, ...any)) {
 			l := mkLeaf(c, p)
 			psp, pbp, plp, ppp := &ps, &pb, &l, &pp
 			payload, kind = &dPP{PS: &psp, PB: &pbp, PT: &plp, PP: &ppp, N: 1}, "pointers-to-pointers"
+		case 32:
+			// slices of slices under a public tag: the tag speaks for strings held directly; structs and maps
+			// further down carry their own tags (or none)
+			a, b2 := mkLeaf(c, p), mkLeaf(c, p)
+			payload, kind = &dPubSS{PP: [][]*dLeaf{{&a}, nil, {&b2, nil}}, PV: [][]dLeaf{{mkLeaf(c, p)}},
+				PM: [][]map[string]interface{}{{{"k": c.prot()}}}, SS: [][]string{{c.pub()}}, N: 1}, "public-slices-of-slices"
+		case 31:
+			// the payload is a pointer to a Taggable map
+			m, tags := mkTagMap(c, p)
+			curTags = tags
+			payload, kind = &m, "pointer-to-taggable-map"
+		case 30:
+			// the payload is a pointer to a map
+			pm := map[string]interface{}{"s": c.prot(), "n": 1, "in": map[string]interface{}{"k": c.prot()}}
+			payload, kind = &pm, "pointer-to-map"
 		case 29:
 			// a value of a type with a registered copier (copystructure's extension point): the copier runs in
 			// the middle of Process and looks at the event Process was given; one in three fails
@@ -582,6 +606,7 @@ func deepShapes(p *prng, n int, st *stats, oracle func(string, ...any)) {
 					er = fmt.Errorf("PANIC: %v", r)
 				}
 			}()
+			typeBefore = reflect.TypeOf(e.Payload)
 			copyProbeEvent, copyProbeSaw = e, ""
 			defer func() { copyProbeEvent = nil }()
 			return f.Process(ctx, e)
@@ -598,6 +623,9 @@ func deepShapes(p *prng, n int, st *stats, oracle func(string, ...any)) {
 		}
 		if copyProbeSaw != "" {
 			once("C10", kind, copyProbeSaw)
+		}
+		if reflect.TypeOf(e.Payload) != typeBefore {
+			once("C10", kind, fmt.Sprintf("the event Process was given held a %v before the call and holds a %v after it: Process wrote to the event it was given", typeBefore, reflect.TypeOf(e.Payload)))
 		}
 		// whatever the outcome (success, error, a failing copier): the event Process was given still has its table
 		if b, ok := e.Format("pre"); !ok || string(b) != "abc" || len(e.Formatted) != 3 {
@@ -662,6 +690,10 @@ func deepShapes(p *prng, n int, st *stats, oracle func(string, ...any)) {
 				om = v[0].Attrs
 			case *dTagSibling:
 				om = v.H.Attrs
+			case *tagMap:
+				if v != nil {
+					om = *v
+				}
 			}
 			for _, t := range curTags {
 				cur := reflect.ValueOf(map[string]interface{}(om))
